@@ -96,6 +96,14 @@ open MdIt.Inline MdIt.Pipeline
 #check @docNoDoubleTick_of_src
 #check @doc_total_src
 #check @doc_total_stock
+#check @insideFull_ruleBackticks
+#check @back_decline_marks
+#check @text_end_not_inside
+#check @newline_end_not_inside
+#check @autolink_end_not_inside
+#check @entity_end_not_inside
+#check @backticks_end_not_inside
+#check @escape_end_inside_iff
 
 #print axioms lookahead_guard_free
 #print axioms skip_guard_free
@@ -192,3 +200,11 @@ open MdIt.Inline MdIt.Pipeline
 #print axioms docNoDoubleTick_of_src
 #print axioms doc_total_src
 #print axioms doc_total_stock
+#print axioms insideFull_ruleBackticks
+#print axioms back_decline_marks
+#print axioms text_end_not_inside
+#print axioms newline_end_not_inside
+#print axioms autolink_end_not_inside
+#print axioms entity_end_not_inside
+#print axioms backticks_end_not_inside
+#print axioms escape_end_inside_iff
